@@ -249,7 +249,16 @@ func runHdr(r *common.Run, c hdrCase, class string) {
 			break
 		}
 	}
-	line := fmt.Sprintf("hdr %s %s %s %s %s %s %s", common.B(c.ws), hx(xmlns), hx(to), hx(from), hx(id), hx(c.lang), common.Hex(hdr))
+	// the stream id is random: the line carries the header with the id replaced by ID0
+	lineID, lineHdr := id, hdr
+	if id != "" {
+		lineID = "ID0"
+		lineHdr = bytes.Replace(hdr, []byte(" id='"+id+"'"), []byte(" id='ID0'"), 1)
+		if t, err := firstStart(lineHdr); err == nil {
+			obs = canonStart(t)
+		}
+	}
+	line := fmt.Sprintf("hdr %s %s %s %s %s %s %s", common.B(c.ws), hx(xmlns), hx(to), hx(from), hx(lineID), hx(c.lang), common.Hex(lineHdr))
 	r.Line(line, obs)
 	r.Case(line, true, class)
 	lines := []string{r.Prop + " " + line}
@@ -343,6 +352,19 @@ func runHdr(r *common.Run, c hdrCase, class string) {
 		}
 		if in.XMLNS != wantNS {
 			r.Fail("header-peer-recovers", "xmlns", lines, fmt.Sprintf("xmlns: sent %q, the library reads %q", wantNS, in.XMLNS))
+		}
+	}
+}
+
+func firstStart(b []byte) (xml.StartElement, error) {
+	d := xml.NewDecoder(bytes.NewReader(b))
+	for {
+		tok, err := d.Token()
+		if err != nil {
+			return xml.StartElement{}, err
+		}
+		if t, ok := tok.(xml.StartElement); ok {
+			return t.Copy(), nil
 		}
 	}
 }
@@ -1142,6 +1164,9 @@ var langs = []string{"", "en", "de-CH", "x'y", "a&b", "<", "\"", "en\">"}
 
 // Run is the C12 runner.
 func Run(r *common.Run) error {
+	// common.NewRand(seed+1) is common.NewRand(seed) shifted by one draw, and r.Case
+	// consumes draws: fork once so that different seeds give unrelated case streams
+	rnd := r.Rnd.Fork()
 	if r.Replay != "" {
 		buildAllFacts()
 		lines, err := common.ReplayLines(r.Replay)
@@ -1180,24 +1205,24 @@ func Run(r *common.Run) error {
 	alpha := []rune("ab'\"&<>;#x/@ =é\t")
 	n := r.Pick(300, 5000)
 	for i := 0; i < n; i++ {
-		k := 1 + r.Rnd.Intn(8)
+		k := 1 + rnd.Intn(8)
 		rs := make([]rune, k)
 		for x := range rs {
-			rs[x] = alpha[r.Rnd.Intn(len(alpha))]
+			rs[x] = alpha[rnd.Intn(len(alpha))]
 		}
 		j, err := jid.New("user", "example.net", string(rs))
 		if err != nil {
 			continue
 		}
 		lang := ""
-		if r.Rnd.Chance(1, 3) {
-			ls := make([]rune, 1+r.Rnd.Intn(4))
+		if rnd.Chance(1, 3) {
+			ls := make([]rune, 1+rnd.Intn(4))
 			for x := range ls {
-				ls[x] = alpha[r.Rnd.Intn(len(alpha))]
+				ls[x] = alpha[rnd.Intn(len(alpha))]
 			}
 			lang = string(ls)
 		}
-		runHdr(r, hdrCase{recv: r.Rnd.Bool(), ws: r.Rnd.Bool(), s2s: r.Rnd.Bool(), loc: "example.net", orig: j.String(), lang: lang}, "hdr-random")
+		runHdr(r, hdrCase{recv: rnd.Bool(), ws: rnd.Bool(), s2s: rnd.Bool(), loc: "example.net", orig: j.String(), lang: lang}, "hdr-random")
 	}
 
 	// ---- neg: single headers, every variant x role x framing ----
@@ -1237,16 +1262,16 @@ func Run(r *common.Run) error {
 				var hs []string
 				for k := 0; k < 3; k++ {
 					h := hv{open: true, version: "1.0", xmlns: "jabber:client", id: "s1", to: to, from: from}
-					if r.Rnd.Chance(1, 2) {
-						h.to = pool[r.Rnd.Intn(len(pool))]
+					if rnd.Chance(1, 2) {
+						h.to = pool[rnd.Intn(len(pool))]
 					}
-					if r.Rnd.Chance(1, 2) {
-						h.from = pool[r.Rnd.Intn(len(pool))]
+					if rnd.Chance(1, 2) {
+						h.from = pool[rnd.Intn(len(pool))]
 					}
 					hs = append(hs, mkHdr(ws, h))
 				}
-				known := r.Rnd.Chance(1, 2)
-				c := negCase{recv: recv, ws: ws, s2s: r.Rnd.Bool(), hdrs: hs}
+				known := rnd.Chance(1, 2)
+				c := negCase{recv: recv, ws: ws, s2s: rnd.Bool(), hdrs: hs}
 				if known || !recv {
 					c.loc, c.orig = locA, origA
 				}
